@@ -231,6 +231,8 @@ fn parse_probe_typed<L: Lit>(fmt: &str, data: &[u8]) -> (Option<Vec<String>>, us
 /// parse → write with the crate's writer(s) → parse again; returns (first, [(writer name, second)]).
 #[allow(clippy::type_complexity)]
 fn rewrite_typed<L: Lit>(fmt: &str, data: &[u8], w: u8) -> Option<(Vec<String>, Vec<(&'static str, Option<Vec<String>>)>, bool)> {
+    // (writer, the value read back) for the writers whose output reads back differently; an entry
+    // per writer would hold a copy of the whole value, which at scale is hundreds of megabytes
     let mut res = vec![];
     let mut same = true;
     if fmt == "aag" {
@@ -244,8 +246,11 @@ fn rewrite_typed<L: Lit>(fmt: &str, data: &[u8], w: u8) -> Option<(Vec<String>, 
         }
         if w == 1 { same = out == data; }
         let b = ascii::Parser::<L>::from_read(&out[..], ascii::Config::default()).and_then(|p| p.parse()).ok();
-        res.push(("ascii::write_aig", b.map(|b| aig_items(&b))));
-        Some((aig_items(&a), res, same))
+        drop(out);
+        let first = aig_items(&a);
+        let second = b.map(|b| aig_items(&b));
+        if second.as_ref() != Some(&first) { res.push(("ascii::write_aig", second)); }
+        Some((first, res, same))
     } else {
         let a = binary::Parser::<L>::from_read(data, binary::Config::default()).and_then(|p| p.parse()).ok()?;
         let mut out: Vec<u8> = vec![];
@@ -257,7 +262,10 @@ fn rewrite_typed<L: Lit>(fmt: &str, data: &[u8], w: u8) -> Option<(Vec<String>, 
         }
         if w == 1 { same = out == data; }
         let b = binary::Parser::<L>::from_read(&out[..], binary::Config::default()).and_then(|p| p.parse()).ok();
-        res.push(("binary::write_ordered_aig", b.map(|b| ordered_items(&b))));
+        drop(out);
+        let first = ordered_items(&a);
+        let second = b.map(|b| ordered_items(&b));
+        if second.as_ref() != Some(&first) { res.push(("binary::write_ordered_aig", second)); }
         // the ordered circuit through the ASCII writer must read back as `Aig::from(ordered)`;
         // only for small input counts (the ASCII form lists every input)
         if a.input_count <= 64 {
@@ -270,12 +278,12 @@ fn rewrite_typed<L: Lit>(fmt: &str, data: &[u8], w: u8) -> Option<(Vec<String>, 
             }
             let b = ascii::Parser::<L>::from_read(&out[..], ascii::Config::default()).and_then(|p| p.parse()).ok();
             let want = aig_items(&Aig::from(a.clone()));
-            res.push(("ascii::write_ordered_aig", b.map(|b| {
-                let got = aig_items(&b);
-                if got == want { ordered_items(&a) } else { got }
-            })));
+            match b.map(|b| aig_items(&b)) {
+                Some(got) if got == want => {}
+                other => res.push(("ascii::write_ordered_aig", other)),
+            }
         }
-        Some((ordered_items(&a), res, same))
+        Some((first, res, same))
     }
 }
 
@@ -806,6 +814,7 @@ pub fn run_case(line: &str) -> (String, Vec<String>) {
     // ---- C06: independent reading of accepted inputs
     let mut wmis = false;
     if !fault && base.fin == "END" {
+        let mut text_items: Option<Vec<String>> = None;
         match reference_read(&c.fmt, &c.ty, &delivered) {
             Err(why) => {
                 if why.starts_with("C06:") { fails.push(why); } else {
@@ -823,12 +832,13 @@ pub fn run_case(line: &str) -> (String, Vec<String>) {
                     if got.len() + want.len() > 64 {
                         // scale: the counts, and the first index at which the two lists differ
                         let at = got.iter().zip(want.iter()).position(|(g, w)| g != w).unwrap_or(got.len().min(want.len()));
-                        fails.push(format!("C06:returned {} items but the text has {}; first difference at item {}: returned {:?}, text {:?}",
+                        fails.push(format!("C06:returned {} items but the text has {}, first difference at item {}: returned {:?}, text {:?}",
                             got.len(), want.len(), at, got.get(at).map(|s| clip(s)), want.get(at).map(|s| clip(s))));
                     } else {
                         fails.push(format!("C06:returned items {:?} differ from the text {:?}", got, want));
                     }
                 }
+                text_items = Some(rd.items.into_iter().map(|(s, _)| s).collect());
             }
         }
         // ---- C03 converse: parse(write(parse(t))) = parse(t)
@@ -836,12 +846,20 @@ pub fn run_case(line: &str) -> (String, Vec<String>) {
             None => fails.push("C03:writing the parsed value back panicked".into()),
             Some(None) => fails.push("C03:parse() rejects what the streaming API accepted".into()),
             Some(Some((first, again, same_bytes))) => {
+                // whatever the mode of the case: the value `parse()` returns is what the text says
+                if let Some(want) = &text_items {
+                    if c.mode != "parse" && &first != want {
+                        let at = first.iter().zip(want.iter()).position(|(g, w)| g != w).unwrap_or(first.len().min(want.len()));
+                        fails.push(format!("C06:parse() returned {} items but the text has {}, first difference at item {}: returned {:?}, text {:?}",
+                            first.len(), want.len(), at, first.get(at).map(|s| clip(s)), want.get(at).map(|s| clip(s))));
+                    }
+                }
                 for (w, second) in again {
-                    if second.as_ref() != Some(&first) {
+                    {
                         if first.len() > 64 {
                             let n2 = second.as_ref().map(|v| v.len());
                             let at = second.as_ref().and_then(|v| v.iter().zip(first.iter()).position(|(a, b)| a != b));
-                            fails.push(format!("C03:parse({}(parse(t))) has {:?} items but parse(t) has {}; first difference at item {:?}", w, n2, first.len(), at));
+                            fails.push(format!("C03:parse({}(parse(t))) has {:?} items but parse(t) has {}, first difference at item {:?}", w, n2, first.len(), at));
                         } else {
                             fails.push(format!("C03:parse({}(parse(t))) = {:?} but parse(t) = {:?}", w, second, first));
                         }
